@@ -141,7 +141,9 @@ CLAIMED["C09"] = dict(
          "up to the error field; lifted to any sequence), success_clears_error (with the proved n = 0 exception), error_text_nonempty (kernel `decide` over the message table "
          "extracted from the running library each run). Tied to the code by (A) L1 histories with invalid calls mixed in, byte-exact against the model; (B) twin runs on every "
          "writable format: a valid history with and without invalid calls of every class inserted must agree line by line and in the final file bytes; every inserted call "
-         "must fail cleanly with a non-empty message; all error numbers 0..SFE_MAX_ERROR exhaustively.",
+         "must fail cleanly with a non-empty message; all error numbers 0..SFE_MAX_ERROR exhaustively; (C) failed opens (vlib/c09open.py): malformed inputs of every container, SD2 with damaged / empty / "
+         "missing resource forks, unknown formats, bad SF_INFO and modes, through sf_open / sf_open_fd (close_desc 1 and 0) / sf_open_virtual: NULL, sf_error (NULL) != 0 with a message, the handed-over "
+         "descriptor closed, heap balance 0, no new descriptor, no temporary file (Lean side: SfProps/C16 failed_open_leaves_no_handle, close_releases_all_after_failed_open).",
     technique="Lean 4 theorems over a hand-written handle model + table extraction by execution + twin-run differential on the implementation",
     design_ref="DESIGN.md §7 C09")
 
@@ -212,8 +214,11 @@ CLAIMED["C16"] = dict(
          "released twice (no_double_free), a replacing call keeps exactly one block per owner (replace_frees_old), sf_close returns 0 when the descriptor closes (close_returns_zero_when_io_ok). "
          "Tied to the code per operation: owner-pointer mask read from the private struct, live heap blocks counted with the ASan runtime's malloc/free hooks, descriptor table, against `sfmodel ledger`, "
          "for every writable (major, subtype, endian) x route x history; and by the property predicate itself (heap balance 0, LeakSanitizer clean, no new descriptor, empty private TMPDIR, close = 0) on "
-         "those and on failing opens, damaged SD2 resource forks, and the library's own files truncated at every header offset, with mutated length fields and duplicated chunks. Partial: header parsers are "
-         "relational in the model (read-mode parse events come from the observed mask); allocation failure is not injected; one handle per model world.",
+         "those and on failing opens, damaged SD2 resource forks, and the library's own files truncated at every header offset, with mutated length fields and duplicated chunks. "
+         "Worlds of several handles (multi_close_releases_all, handles_isolated) with interleaved scenarios; read-mode parse events of WAV/WAVEX/RF64/AIFF/CAF are predicted from a chunk walk of the "
+         "file's bytes (channel map and ALAC iterator still from the observed mask); failing opens through `ledger tryopen`, which never closes a handed-over descriptor. Also proved: the repaired "
+         "dither-install and aiff_ima_seek rules (dither_write_terminates, aiff_ima_seek_never_calls_null; old rules refuted). Partial: the parsers stay relational in the theorems (any event list); "
+         "allocation failure is not injected; known finding KF-RDWR-FAILED-OPEN-FPE (SIGFPE in a header writer during a failing SFM_RDWR open of a malformed file).",
     technique="Lean 4 theorems over a resource-ledger model + per-operation differential check (private-struct mask, ASan allocation hooks, /proc/self/fd, TMPDIR) and balance predicate on implementation runs",
     design_ref="DESIGN.md §7 C16")
 
